@@ -231,6 +231,27 @@ def run_tlc_shards(specdir, module, cfg, shard_envs, workers_each=1, timeout=180
         return list(ex.map(one, enumerate(shard_envs)))
 
 
+def run_apalache(specdir, module, init, inv, length, next_='Next', timeout=900, tag=''):
+    """apalache-mc check (symbolic, bounded by `length` steps from `init`).  Returns 'NoError' | 'Error'
+    (the invariant can be violated); anything else is a machinery failure."""
+    out = os.path.join(specdir, 'apa-%s-%s-%s' % (module, tag or inv, os.getpid()))
+    cmd = ['apalache-mc', 'check', '--init=' + init, '--next=' + next_, '--inv=' + inv, '--length=%d' % length,
+           '--out-dir=' + out, module + '.tla']
+    e = dict(os.environ)
+    e.pop('JAVA_TOOL_OPTIONS', None)
+    try:
+        p = subprocess.run(cmd, cwd=specdir, env=e, stdout=subprocess.PIPE, stderr=subprocess.STDOUT, timeout=timeout)
+        text = p.stdout.decode('utf8', 'replace')
+    except subprocess.TimeoutExpired:
+        raise MachineryError('apalache timed out after %ss on %s %s' % (timeout, module, inv))
+    finally:
+        shutil.rmtree(out, ignore_errors=True)
+    m = re.search(r'The outcome is: (\w+)', text)
+    if not m or m.group(1) not in ('NoError', 'Error'):
+        raise MachineryError('apalache failed on %s (%s/%s): %s' % (module, init, inv, '\n'.join(text.splitlines()[-15:])))
+    return m.group(1)
+
+
 def sany(specdir, module):
     cmd = ['java', '-cp', TLAJAR + ':' + TLADEPS, 'tla2sany.SANY', module + '.tla']
     p = subprocess.run(cmd, cwd=specdir, stdout=subprocess.PIPE, stderr=subprocess.STDOUT)
